@@ -390,6 +390,13 @@ class C03(Base):
             case["config"]["-ms"] = rng.choice([250, 500, 900])
         case["executions"] = [gen_exec(rng) for _ in range(2)]
         w = getattr(rng, "world_index", None)
+        if (w % 53 == 11) if w is not None else rng.random() < 0.02:
+            # one long molecule: HitEnum runs of 100 and more
+            ref = W.ref_random(rng, rng.randint(1, 300), rng.randint(150, 190))
+            q, _ = W.q_planted(rng, rng.randint(1, 5000), ref, kmin=105, kmax=140, margin=2)
+            case = {"filesets": {"base": {"refs": [W.strip(ref)], "queries": [W.strip(q)], "r_layout": None, "q_layout": None}},
+                    "config": {}, "truth": {}, "meta": {"ref_family": "random", "families": ["long"]}}
+            case["executions"] = [gen_exec(rng, stream_p=0.0)]
         if (w % 97 == 5) if w is not None else rng.random() < 0.008:        # placed, so that every tier meets one early
             case = big_world(rng)
             case["executions"] = [gen_exec(rng, profile=rng.choice(["jitter", "reverse-finish", "one-stalled"]), stream_p=0.0)]
@@ -767,6 +774,8 @@ class C07(Base):
         ex["out_name"] = rng.choice(["out.xmap"] * 5 + ["out", "res.v2/out", "sub/out.xmap", "./out.xmap", "out.v1.xmap", "run#hg38/out.xmap"])
         if rng.random() < 0.3:
             ex["stale"] = True
+        if rng.random() < 0.1:
+            ex["stdout"] = True
         if rng.random() < 0.2:
             # fault: descriptor exhaustion - every worker may open only a few descriptors beyond those it starts with, and
             # one worker runs (nearly) all tasks; a run that leaks a descriptor per task dies, a correct one does not notice
@@ -881,6 +890,8 @@ class C08(Base):
 
     def gen(self, rng, tier):
         mix = [("chimeric", 5), ("indel", 5), ("noisy", 2), ("planted", 1), ("random", 1)]
+        if rng.random() < 0.1:
+            mix = [("planted", 3), ("noisy", 1)]         # worlds in which (almost) nothing is left for the second pass
         case = gen_general(rng, mix=mix, aggressive=False)
         case["config"]["-diff"] = rng.choice([0, 20000, 100000, 100000, 10000000])
         base = gen_exec(rng, stream_p=0.0)
@@ -1091,6 +1102,9 @@ class C09(Base):
         if rng.random() < 0.5:
             for ex in exs[1:]:
                 ex["keep_outputs"] = True      # a repetition into the same output path, without cleaning up in between
+        if rng.random() < 0.15:
+            for ex in exs:
+                ex["stdout"] = True            # -o omitted: the main XMAP is whatever arrives on the process's stdout
         case["executions"] = exs
         w = getattr(rng, "world_index", None)
         if (w % 41 == 3) if w is not None else rng.random() < 0.012:
